@@ -534,7 +534,7 @@ def main(argv=None):
                 agg['extra'][k] = agg['extra'].get(k, True) and v
             elif isinstance(v, list):
                 agg['extra'].setdefault(k, [])
-                agg['extra'][k] = (agg['extra'][k] + v)[:12]
+                agg['extra'][k] = (agg['extra'][k] + v)[:16]
             elif isinstance(v, dict):
                 d = agg['extra'].setdefault(k, {})
                 for kk, vv in v.items():
